@@ -134,7 +134,9 @@ def cells(thorough):
                 continue
             for s in slacks:
                 for tz in (ZONES_Q if not thorough else ZONES_T):
-                    if tz != 'UTC' and not (rich and style == 'Z' and s in (None, 60) or thorough and style in ('Z', '+01:00')):
+                    # every spelling in every process zone (round 6: a fractional-seconds branch that parsed in local time was
+                    # missed while the zones were crossed with the `Z` spelling only)
+                    if tz != 'UTC' and not (rich and (style == 'Z' and s in (None, 60) or s == 0) or thorough):
                         continue
                     out.append((si, name, style, s, f(s or 0), tz))
                     # the same windows when the response arrives over the synchronous binding
@@ -276,7 +278,7 @@ def run(ctx):
         'level': 'exploration',
         'coverage': {
             'evaluations': n, 'distinct_nontrivial': len(nontriv), 'exhaustive': True,
-            'rule': 'complete grid: %d document shapes (every subset of the five optional bounds; Conditions without any child element; two bearer confirmations with different windows in both orders; session-earlier-than-conditions; two and three AuthnStatements with the earliest session bound on a later one; OneTimeUse next to the bounds; a plain assertion next to a valid encrypted one; the allowance lowered on the live configuration after construction; an Advice assertion with its own window (its attributes must not reach the application outside it); wide bounds isolating IssueInstant; NotBefore>NotOnOrAfter inversions) x timestamp spellings (Z, fractions, no designator, numeric zones incl. half-hour and negative offsets) x allowance values x process time zone (UTC, UTC+5, UTC-5; thorough also +5:30 and a DST zone) x delivery (signed over HTTP-POST; unsigned over SOAP, where the handler runs with asynchop off) x placements of now (-2..+2 s around every edge shifted by the allowance, around +-1 day of IssueInstant, far values); non-trivial = cells where the oracle demands a verdict (reject-required or accept-required, 1 s dead zone around each edge)' % len(SHAPES),
+            'rule': 'complete grid: %d document shapes (every subset of the five optional bounds; Conditions without any child element; two bearer confirmations with different windows in both orders; session-earlier-than-conditions; two and three AuthnStatements with the earliest session bound on a later one; OneTimeUse next to the bounds; a plain assertion next to a valid encrypted one; the allowance lowered on the live configuration after construction; an Advice assertion with its own window (its attributes must not reach the application outside it); wide bounds isolating IssueInstant; NotBefore>NotOnOrAfter inversions) x timestamp spellings (Z, fractions, no designator, numeric zones incl. half-hour and negative offsets) x allowance values x process time zone (UTC, UTC+5, UTC-5; thorough also +5:30 and a DST zone; every spelling is crossed with every zone - quick: on the rich shapes with allowance 0, thorough: the complete product) x delivery (signed over HTTP-POST; unsigned over SOAP, where the handler runs with asynchop off) x placements of now (-2..+2 s around every edge shifted by the allowance, around +-1 day of IssueInstant, far values); non-trivial = cells where the oracle demands a verdict (reject-required or accept-required, 1 s dead zone around each edge)' % len(SHAPES),
             'samples': [{'cell': list(cs[i0][:4]) + [cs[i0][5]], 'instants': cs[i0][4][:6], 'outcomes': [list(o) for o in res[i0][:3]]}],
             'accepted': n_acc, 'accept_required_cells': n_must_acc, 'reject_required_cells': n_must_rej,
             'distinct_outcomes': len(hist), 'outcome_histogram': hist,
